@@ -415,6 +415,20 @@ def check_wrappers(ctx, prog):
     f = one('asl::Semaphore::wait', '()')
     c = lib_calls(f)
     ctx.check(len(c) == 1 and c[0]['fn'] == 'sem_wait', 'C13.wrappers', f['pq'], 'Semaphore::wait():one sem_wait', fwhere(f), 'one sem_wait', 'Semaphore::wait() does not call sem_wait exactly once')
+    f = one('asl::Semaphore::wait', '(double)')
+    c = lib_calls(f)
+    rets = [s_ for s_ in ir.walk_stmts(f['body']) if s_.get('k') == 'return' and s_.get('e') is not None]
+    okk = len(c) == 1 and c[0]['fn'] == 'sem_timedwait' and len(rets) == 1
+    if okk:
+        r = strip(rets[0]['e'])
+        okk = r.get('k') == 'bin' and r.get('op') == '==' and strip(r['x']) is c[0] and const_val(r['y']) == 0
+    ctx.check(okk, 'C13.wrappers', f['pq'], 'Semaphore::wait(timeout):success is the return value of sem_timedwait', fwhere(f), 'return sem_timedwait(..) == 0',
+              'Semaphore::wait(timeout) does not report success from the return value of sem_timedwait (errno is only meaningful after a failure): a post that was taken can be reported as a timeout, i.e. lost')
+    f = one('asl::Semaphore::trywait')
+    c = lib_calls(f)
+    rets = [s_ for s_ in ir.walk_stmts(f['body']) if s_.get('k') == 'return' and s_.get('e') is not None]
+    okk = len(c) == 1 and c[0]['fn'] == 'sem_trywait' and len(rets) == 1 and strip(rets[0]['e']).get('op') == '==' and strip(strip(rets[0]['e'])['x']) is c[0] and const_val(strip(rets[0]['e'])['y']) == 0
+    ctx.check(okk, 'C13.wrappers', f['pq'], 'Semaphore::trywait():success is the return value of sem_trywait', fwhere(f), 'return sem_trywait(..) == 0', 'Semaphore::trywait() does not report success from the return value of sem_trywait')
     f = one('asl::Condition::wait', '()')
     c = lib_calls(f)
     okk = len(c) == 1 and c[0]['fn'] == 'pthread_cond_wait' and any(w.get('k') == 'mem' and w.get('f') == '_mutex' for w in walk_expr(c[0]['a'][1])) and any(w.get('k') == 'mem' and w.get('f') == '_cond' for w in walk_expr(c[0]['a'][0]))
